@@ -110,6 +110,9 @@ func genC07Rule(t *rapid.T) RuleSpec {
 			segs = append(segs, "{"+f+"=**}")
 		case isString && k == 1:
 			segs = append(segs, "{"+f+"=r/*}")
+			if rapid.Bool().Draw(t, "c7_lit_after_var") {
+				segs = append(segs, "tail") // a literal right behind a bounded variable
+			}
 		case isString && last && k == 2:
 			segs = append(segs, "{"+f+"=p/*/q/**}")
 		case k == 3:
@@ -235,10 +238,22 @@ func TestC07(t *testing.T) {
 			c.Form = rapid.SampledFrom([]string{FormGRPC, FormConnectUnary, FormGRPCWeb}).Draw(t, "c7_client_form")
 			c.HTTP2 = true
 			c.Codec = rapid.SampledFrom([]string{CodecProto, CodecJSON}).Draw(t, "c7_codec")
-			if rapid.IntRange(0, 4).Draw(t, "c7_unprojected") == 0 {
+			unproj := rapid.IntRange(0, 5).Draw(t, "c7_unprojected")
+			if strings.Contains(rule.Template, "=r/*}") && rapid.IntRange(0, 2).Draw(t, "c7_force_misfit") == 0 {
+				unproj = 1
+			}
+			switch unproj {
+			case 0:
 				// a message that may not be URL-encodable at all
 				c.Msgs = [][]byte{mustMarshal(genMessage(t, mi.In, "c7_raw_req", mo))}
 				sc.Note = "unprojected"
+			case 1:
+				// a path variable whose value does not match the pattern its template gives it: there is
+				// no URL for this message, the RPC must fail
+				if patternMisfit(t, rule, m, "c7_misfit") {
+					c.Msgs = [][]byte{mustMarshal(m)}
+					sc.Note = "pattern_misfit"
+				}
 			}
 		}
 		rc := &restCase{Mode: mode, Sc: *sc}
@@ -400,6 +415,10 @@ func checkC07(rc *restCase) *CheckResult {
 		}
 		res.NonTrivial = strings.Contains(view.EscapedPath, "%") || view.Snap.RawQuery != ""
 		res.Sample.(map[string]any)["backend_request"] = view.Snap.Method + " " + view.EscapedPath + "?" + view.Snap.RawQuery
+		if sc.Note == "pattern_misfit" && !expressible {
+			res.violate("misfit_sent", "c07:backend_roundtrip:pattern_misfit", "message %s has a path variable that does not match its pattern in rule %v, yet a REST request was issued: %s %s", msgJSON(out.Sent.Msgs[0]), rule, view.Snap.Method, view.EscapedPath)
+			return res
+		}
 		if view.Snap.Method != rule.Method {
 			res.violate("rest_method", "c07:backend_line", "REST backend received method %s, rule says %s", view.Snap.Method, rule.Method)
 		}
@@ -413,6 +432,9 @@ func checkC07(rc *restCase) *CheckResult {
 				sig := "c07:backend_roundtrip"
 				if !expressible {
 					sig = "c07:backend_roundtrip:inexpressible"
+				}
+				if sc.Note == "pattern_misfit" {
+					sig = "c07:backend_roundtrip:pattern_misfit"
 				}
 				res.violate("roundtrip", sig, "message converted to REST does not re-parse to the original: sent %s, REST request %s %s?%s body %q re-parses to %s", msgJSON(want), view.Snap.Method, view.EscapedPath, view.Snap.RawQuery, trunc(view.Body), msgJSON(got))
 			}
@@ -575,12 +597,18 @@ func checkC07Chain(rc *restCase, res *CheckResult) *CheckResult {
 		}
 		return res
 	}
+	if sc.Note == "pattern_misfit" && !expressible && cv.OK {
+		res.violate("misfit_sent", "c07:chain_roundtrip:pattern_misfit", "message %s has a path variable that does not match its pattern in rule %v, yet RPC->REST->RPC succeeded (final backend saw %d messages)", msgJSON(enc.Msgs[0]), rule, len(out.Backend.Msgs))
+		return res
+	}
 	if len(out.Backend.Msgs) == 1 && out.Backend.Msgs[0] != nil && cv.OK {
 		want := normRule(rule, rule.Body, enc.Msgs)[0]
 		got := normRule(rule, rule.Body, out.Backend.Msgs)[0]
 		if canon(want) != canon(got) {
 			sig := "c07:chain_roundtrip"
-			if !expressible {
+			if sc.Note == "pattern_misfit" {
+				sig = "c07:chain_roundtrip:pattern_misfit"
+			} else if !expressible {
 				sig = "c07:chain_roundtrip:inexpressible"
 			} else if canon(dequoteWrapperStrings(want)) == canon(got) {
 				sig = "c07:chain_roundtrip:quoted_stringvalue"
